@@ -267,8 +267,8 @@ func (x *Exec) generate1(walk, keep func(name string) bool) []*FuncReport {
 		if !want(name) {
 			continue
 		}
-		if fn.Parent() != nil {
-			continue // closures: loop invariants only, used while inlining
+		if fn.Parent() != nil && fn.Parent().Synthetic == "" {
+			continue // closures: loop invariants only, used while inlining (the literals of package-level variables are functions of their own)
 		}
 		if con.Trusted {
 			if keep(name) {
